@@ -16,6 +16,111 @@ EXPLANATION = (
     "history (hand argument in DESIGN.md section 5 F2), buffer-size independence of quick-xml itself.")
 
 
+def _presence_only_uses(b, l0):
+    """the shared reference `l0 = &element.text` (and every copy of it, also through tuple fields) is only ever
+    handed to is_some/is_none or used for a discriminant test"""
+    PRES = ("std::option::Option::is_some", "std::option::Option::is_none")
+
+    def key(proj):
+        out = []
+        for e in proj:
+            if isinstance(e, dict) and "i" in e and e.get("tuple"):
+                out.append(e["i"])
+            else:
+                return None
+        return tuple(out)
+    aliases = {(l0, ())}
+    work = [(l0, ())]
+    uses = []
+    bad = []
+    steps = 0
+    while work and steps < 200:
+        steps += 1
+        l, path = work.pop()
+
+        def rel(p):
+            """'alias' if place p is exactly this alias, 'inside' if it reads through it, 'outer' if it is an aggregate holding it"""
+            if p is None or p["l"] != l:
+                return None
+            pj = p["p"]
+            k = key(pj[:len(path)]) if len(pj) >= len(path) else None
+            if k == path:
+                rest = pj[len(path):]
+                return ("alias", rest) if not rest else ("inside", rest)
+            if key(pj) is not None and key(pj) == path[:len(pj)]:
+                return ("outer", pj)
+            return None
+        for s in b.sites():
+            nd = s.node
+            if s.si is None:
+                if nd["k"] == "call":
+                    for a in nd["args"]:
+                        rl = rel(mir.op_place(a))
+                        if rl is None:
+                            continue
+                        if rl[0] == "alias" and cname(nd) in PRES:
+                            uses.append(cname(nd).rsplit("::", 1)[-1])
+                        else:
+                            bad.append("passed to %s" % cname(nd))
+                elif nd["k"] == "switch":
+                    pass
+                continue
+            if nd["k"] != "assign":
+                continue
+            rv = nd["rv"]
+            dst = nd["place"]
+            ops = [rv.get(k2) for k2 in ("op", "l", "r", "o")] + list(rv.get("ops", []))
+            for i, o in enumerate(rv.get("ops", [])):
+                rl = rel(mir.op_place(o))
+                if rl and rl[0] in ("alias", "outer") and rv["k"] == "agg" and rv.get("kind") == "tuple" and not dst["p"]:
+                    na = (dst["l"], (i,) + (path if rl[0] == "alias" else path[len(key(rl[1])):]))
+                    if rl[0] == "alias":
+                        na = (dst["l"], (i,))
+                    if na not in aliases:
+                        aliases.add(na)
+                        work.append(na)
+                elif rl:
+                    bad.append("stored into %s" % rv.get("kind", rv["k"]))
+            if rv["k"] == "use":
+                rl = rel(mir.op_place(rv["op"]))
+                if rl and rl[0] == "alias" and (not dst["p"]):
+                    na = (dst["l"], ())
+                    if na not in aliases:
+                        aliases.add(na)
+                        work.append(na)
+                elif rl and rl[0] == "outer" and not dst["p"]:
+                    na = (dst["l"], path[len(key(rl[1])):])
+                    if na not in aliases:
+                        aliases.add(na)
+                        work.append(na)
+                elif rl:
+                    bad.append("content read (%s)" % "use")
+            elif rv["k"] == "discr":
+                rl = rel(rv["place"])
+                if rl and rl[0] == "inside" and rl[1] == ["deref"]:
+                    uses.append("discriminant")
+                elif rl:
+                    bad.append("discriminant of something else")
+            elif rv["k"] in ("ref", "rawptr"):
+                rl = rel(rv["place"])
+                if rl and rl[0] == "inside" and rl[1] == ["deref"] and not rv.get("mut") and not dst["p"]:
+                    na = (dst["l"], ())
+                    if na not in aliases:
+                        aliases.add(na)
+                        work.append(na)
+                elif rl:
+                    bad.append("re-borrowed in part")
+            elif rv["k"] != "agg":
+                for o in ops:
+                    if isinstance(o, dict) and rel(mir.op_place(o)):
+                        bad.append("used in %s" % rv["k"])
+    if bad:
+        return False, "text content is %s" % sorted(set(bad))
+    if not uses:
+        return False, "text content is handed to []"
+    return True, "only used for %s" % sorted(set(uses))
+
+
 def run(ctx):
     r = ctx.run
     r.explanation = EXPLANATION
@@ -58,13 +163,14 @@ def run(ctx):
                 why = "unrecognised read of Element.text"
                 if s.si is not None and node["k"] == "assign":
                     rv = node["rv"]
-                    if rv["k"] == "discr":
+                    from .common import element_update
+                    upd = element_update(b, s) if rv["k"] == "agg" else None
+                    if upd is not None and "text" not in upd:
+                        ok, why = True, "moved unchanged into the updated element"
+                    elif rv["k"] == "discr":
                         ok, why = True, "discriminant test"
-                    elif rv["k"] == "ref" and not rv["mut"]:
-                        users = [c for c in b.calls() if any(mir.op_place(a) is not None and mir.op_place(a)["l"] == node["place"]["l"] and not mir.op_place(a)["p"] for a in c.node["args"])]
-                        names = sorted({cname(u.node) for u in users})
-                        ok = bool(users) and all(x in ("std::option::Option::is_some", "std::option::Option::is_none") for x in names)
-                        why = "only passed to %s" % names if ok else "text content is handed to %s" % names
+                    elif rv["k"] == "ref" and not rv["mut"] and not node["place"]["p"]:
+                        ok, why = _presence_only_uses(b, node["place"]["l"])
                 r.ob("R11.2.text-presence-only", b.name, ok, why, site=s, key="R11.2|%s|%s" % (b.name, "ok" if ok else why[:40]))
     r.ob("R11.2.text-reads", "library", n > 0, "%d reads of Element.text outside derived impls" % n, key="R11.2|count", nontrivial=True)
     # R11.4
